@@ -206,6 +206,42 @@ def tie_real_sqlite(rep):
             error = e
         h.pony_flask._exit_session(error)
 
+    class Interrupt(BaseException): pass          # KeyboardInterrupt / SystemExit / CancelledError-like: not an Exception
+
+    @scenario('flask: view ends with a BaseException that is not an Exception', [])
+    def _():
+        error = None
+        h.pony_flask._enter_session()
+        try:
+            Row(id=1); raise Interrupt()
+        except Interrupt as e:
+            error = e
+        h.pony_flask._exit_session(error)
+
+    @scenario('with: body ends with a BaseException that is not an Exception', [])
+    def _():
+        try:
+            with db_session:
+                Row(id=1); raise Interrupt()
+        except Interrupt: pass
+
+    @scenario('decorator: body ends with a BaseException that is not an Exception', [])
+    def _():
+        @db_session(retry=1)
+        def f():
+            Row(id=1); raise Interrupt()
+        try: f()
+        except Interrupt: pass
+
+    @scenario('generator: closed while suspended, clean-up writes are not committed', [1])
+    def _():
+        @db_session
+        def g():
+            Row(id=1); commit()
+            try: yield 1
+            finally: Row(id=2)
+        it = g(); next(it); it.close()
+
     @scenario('flask: view returns', [1])
     def _():
         h.pony_flask._enter_session()
